@@ -97,6 +97,18 @@ func genC03(seed uint64, idx int) *Plan {
 		p.OuterSIDEmpty = true
 	}
 	p.DupOuter = idx%7 == 0
+	if idx%4 == 1 {
+		p.Interleave = 1 + (idx/4)%3
+		if p.Interleave > 1 && p.ReadBuf == 0 {
+			p.ReadBuf = 5
+		}
+		if (idx/12)%2 == 0 {
+			// ... and the process has served an accepted connection before
+			pr := p.Target
+			p.Prime = &pr
+		}
+	}
+	p.ErrWithData = idx%3 == 2
 	if idx%5 == 0 {
 		// a legacy_version of the client's own choosing in the inner hello
 		p.LegacyVer = []uint16{0x0301, 0x0302, 0x0304, 0x0300}[(idx/5)%4]
@@ -126,6 +138,7 @@ var c04Muts = []mutSpec{
 	{kind: "outer-has-oe", alerts: []int{alIllegalParameter}},
 	{kind: "outer-ech-type", alerts: []int{alIllegalParameter}},
 	{kind: "outer-sni", alerts: []int{alIllegalParameter}},
+	{kind: "outer-sni-empty", alerts: []int{alIllegalParameter, alDecodeError}},
 	{kind: "inner-no-ech", alerts: []int{alIllegalParameter}},
 	{kind: "inner-no-tls13", alerts: []int{alIllegalParameter}, noComp: true},
 	{kind: "pad-nonzero", alerts: []int{alIllegalParameter}, needPad: true},
@@ -342,6 +355,13 @@ func genC05(seed uint64, idx int) *Plan {
 	if (p.NoECH || p.Grease) && r.IntN(3) == 0 {
 		p.Keys = nil
 	}
+	if idx%5 == 2 {
+		p.Interleave = 1 + (idx/5)%3
+		if p.Interleave > 1 && p.ReadBuf == 0 {
+			p.ReadBuf = 5
+		}
+	}
+	p.ErrWithData = idx%3 == 1
 	if (p.NoECH || p.Grease) && idx%7 == 3 {
 		// the largest plaintext records
 		p.FragmentLen = []int{16384, 16383, 16381, 16380, 16379, 16000}[(idx/7)%6]
